@@ -1326,9 +1326,14 @@ func (sc *serverConn) handleHeaderFrame(strm *Stream, fr *FrameHeader) error {
 		return NewGoAwayError(ProtocolError, "stream that depends on itself")
 	}
 
-	// Only a HEADERS or PUSH_PROMISE frame opens a header block, and only when
-	// there is nothing left over from a frame that cut a field in half.
-	blockStart := fr.Type() != FrameContinuation && len(strm.previousHeaderBytes) == 0
+	// Only a HEADERS or PUSH_PROMISE frame opens a header block. Until the
+	// block's first field has been decoded, which may be frames later when the
+	// block is cut early, it is still at its start.
+	if fr.Type() != FrameContinuation {
+		strm.fieldSeen = false
+	}
+
+	blockStart := !strm.fieldSeen
 
 	// Appending to the stream's own buffer and handing it back keeps the
 	// capacity across frames instead of allocating a header block every time.
@@ -1345,24 +1350,25 @@ func (sc *serverConn) handleHeaderFrame(strm *Stream, fr *FrameHeader) error {
 	fieldsProcessed := 0
 
 	for len(b) > 0 {
-		pb := b
-
 		b, err = sc.dec.nextField(hf, blockStart, fieldsProcessed, b)
 		if err != nil {
 			// ErrUnexpectedSize means a header field spills past the bytes we
-			// currently have. That is only legal when more frames are coming:
-			// a HEADERS frame without END_HEADERS to be completed by a
-			// CONTINUATION. If END_HEADERS is set, the block is complete and a
-			// truncated field is a decoding error.
-			if errors.Is(err, ErrUnexpectedSize) && len(pb) > 0 && !fr.Flags().Has(FlagEndHeaders) {
+			// currently have, and b is now the part of it that we do have. That
+			// is only legal when more frames are coming: a HEADERS frame without
+			// END_HEADERS to be completed by a CONTINUATION. If END_HEADERS is
+			// set, the block is complete and a truncated field is a decoding
+			// error.
+			if errors.Is(err, ErrUnexpectedSize) && !fr.Flags().Has(FlagEndHeaders) {
 				err = nil
-				strm.previousHeaderBytes = append(strm.previousHeaderBytes, pb...)
+				strm.previousHeaderBytes = append(strm.previousHeaderBytes, b...)
 			} else {
 				err = NewGoAwayError(CompressionError, err.Error())
 			}
 
 			break
 		}
+
+		strm.fieldSeen = true
 
 		k, v := hf.KeyBytes(), hf.ValueBytes()
 
